@@ -11,7 +11,9 @@ from . import array_folds as af
 from .common import calls_in, is_name, params, single_return, root_name, returns_of
 from .units_rules import check_wrap_helpers
 
-EXPLANATION = "Folds of core/base.py and core/array.py: (R1) __array_ufunc__/__array_function__ forward the function and ALL arguments to the one wrapper and refuse non-call ufunc methods; (R2) for every function of the property's unit-transforming catalogue the unit is derived by applying the function to the operand units, others inherit; (R3) np.add(a [m], b [cm]): a numeric result may inherit self.unit only after the other operands were reconciled (today: not done -> known finding K1); (R4) dtype gate over the 16-dtype model; (R5) out=: unit stored on the out object, which is returned; (R6) buffers/units extracted from every argument kind; sequence first arguments; (R7) Array.to exact (shared)."
+from . import quantity_stack as qs
+
+EXPLANATION = "Folds of core/base.py and core/array.py: (R1) __array_ufunc__/__array_function__ forward the function and ALL arguments to the one wrapper; (R2) for every function of the property's unit-transforming catalogue the unit is derived by applying the function to the operand units, others inherit; (R3) np.add(a [m], b [cm]): a numeric result may inherit self.unit only after the other operands were reconciled (today: not done -> known finding K1); (R4) dtype gate over the 16-dtype model; (R5) out=: unit stored on the out object, which is returned; (R6) buffers/units extracted from every argument kind; sequence first arguments; (R7) Array.to exact (shared); (R8) end-to-end: Base/Array interpreted under models of numpy's dispatch (ufunc call normalises out= to a tuple, ufunc methods are offered with method=reduce/..., array functions pass the caller's kwargs): the result's physical value (values x symbolic unit scale) is compared with what the function computes."
 NOT_DECIDED = "numpy's values; functions whose correct unit is neither inherited nor in the property's catalogue (var, prod, argsort, ...)"
 TRUSTED = ('CPython ast', 'numpy/pint behave as documented', 'S4 catalogue (from the property text)', 'numpy dtype model', 'the interpreter sa/models.py (ModelEval) and its library models')
 
@@ -64,4 +66,10 @@ def r7_conversion(run, tree):
     af.check_to_fold(run, tree)
 
 
-RULES = [r7_conversion, r1_protocols, r2_catalogue, r3_no_inherit_without_reconcile, r4_dtype_gate, r5_out, r6_helpers]
+def r8_end_to_end(run, tree):
+    run.rule("C10.R8", "end to end through numpy's dispatch: repeated powers, ufunc methods (reduce/accumulate/outer/at: refused, or labelled for what they compute), "
+             "array functions with out=<Array> (refused with out untouched, or out relabelled and returned)", "D7 fold of Base/Array with numpy ufuncs, ufunc methods and array functions as dispatching models", "", floor=10)
+    qs.check_numpy_stack(run, tree)
+
+
+RULES = [r7_conversion, r1_protocols, r2_catalogue, r3_no_inherit_without_reconcile, r4_dtype_gate, r5_out, r6_helpers, r8_end_to_end]
